@@ -75,7 +75,7 @@ Expected(e) ==
       [] e.op = "from_transform" -> XformMat(e.pos, e.q, e.scale)
       [] e.op = "local_to_basis" -> LocalToBasis(e.o, e.i, e.j, e.k)
       [] e.op = "basis_to_local" -> BasisToLocal(e.o, e.i, e.j, e.k)
-AxiomOps == {"from_to", "angle_axis", "look_at"}
+AxiomOps == {"from_to", "angle_axis", "look_at", "angle_axis_f"}
 
 \* operations validated by what the result must DO rather than by a formula
 FromToOk(e) ==
@@ -103,6 +103,10 @@ Extra(e) ==
       [] e.op = "from_to" -> FromToOk(e)
       [] e.op = "angle_axis" -> AngleAxisOk(e)
       [] e.op = "look_at" -> LookAtOk(e)
+      \* floats, plain integers (angle * 2^26, axis * 2^20): a rotation by an angle in (0, pi) about a unit axis has exactly one
+      \* angle-axis description, so the extraction must return the pair the quaternion was built from (to 2^-12 relative)
+      [] e.op = "angle_axis_f" -> /\ e.obs.ang - e.ang \in (0 - (e.ang \div 4096) - 8) .. ((e.ang \div 4096) + 8)
+                                  /\ \A i \in 1 .. 3 : e.obs.axis[i] - e.axis[i] \in -256 .. 256
       \* basis_to_local undoes local_to_basis for an orthonormal basis
       [] e.op = "basis_to_local" -> e.ortho = 1 => MatMul(e.obs, LocalToBasis(e.o, e.i, e.j, e.k)) = Idn(4)
       [] e.op = "local_to_basis" -> /\ MulPoint(e.obs, VZero(3)) = e.o /\ MulPoint(e.obs, Unit(3, 1)) = VAdd(e.o, e.i)
@@ -139,6 +143,7 @@ QuatNormalized == Step("quat_normalized")
 QuatMagnitude == Step("quat_magnitude")
 FromTo == Step("from_to")
 AngleAxis == Step("angle_axis")
+AngleAxisF == Step("angle_axis_f")
 Ctor == Step("ctor")
 Chain == Step("chain")
 MulPointA == Step("mul_point")
@@ -149,7 +154,7 @@ FromTransform == Step("from_transform")
 LookAt == Step("look_at")
 LocalToBasisA == Step("local_to_basis")
 BasisToLocalA == Step("basis_to_local")
-Next == RotAxis \/ Rot3d \/ MatOfQuat \/ QuatRotA \/ Vec2Rot \/ QuatMulA \/ QuatAdd \/ QuatSub \/ QuatDot \/ QuatNeg
+Next == AngleAxisF \/ RotAxis \/ Rot3d \/ MatOfQuat \/ QuatRotA \/ Vec2Rot \/ QuatMulA \/ QuatAdd \/ QuatSub \/ QuatDot \/ QuatNeg
         \/ QuatConjA \/ QuatInvA \/ QuatNorm2A \/ QuatMulS \/ QuatDivS \/ QuatMulV3 \/ QuatMulV4 \/ QuatCompose \/ QuatConv
         \/ QuatNormalized \/ QuatMagnitude \/ FromTo \/ AngleAxis \/ Ctor \/ Chain \/ MulPointA \/ MulDirA \/ MulPoint2d
         \/ MulDir2d \/ FromTransform \/ LookAt \/ LocalToBasisA \/ BasisToLocalA
